@@ -14,8 +14,70 @@ pub struct GState {
     pub serial: u64,
 }
 
-pub trait SimCfg: Config<Input = u32, State = GState, Address = Addr> {
+pub trait SimCfg: Config<State = GState, Address = Addr> {
     const PREDICT_DEFAULT: bool;
+    /// the harness works with u32 values; the session's input type is a view of them
+    fn enc(v: u32) -> Self::Input;
+    fn dec(i: Self::Input) -> u32;
+}
+
+/// An input whose serialised size depends on its value (4, 5 or 8 bytes with bincode).
+#[derive(Copy, Clone, PartialEq, Eq, Debug, Default, Serialize, Deserialize)]
+pub enum VarInput {
+    #[default]
+    None,
+    Small(u8),
+    Big(u32),
+}
+fn var_enc(v: u32) -> VarInput {
+    match v {
+        0 => VarInput::None,
+        1..=255 => VarInput::Small(v as u8),
+        _ => VarInput::Big(v),
+    }
+}
+fn var_dec(i: VarInput) -> u32 {
+    match i {
+        VarInput::None => 0,
+        VarInput::Small(b) => b as u32,
+        VarInput::Big(v) => v,
+    }
+}
+
+#[derive(Debug)]
+pub struct CfgVarRepeat;
+impl Config for CfgVarRepeat {
+    type Input = VarInput;
+    type InputPredictor = PredictRepeatLast;
+    type State = GState;
+    type Address = Addr;
+}
+impl SimCfg for CfgVarRepeat {
+    const PREDICT_DEFAULT: bool = false;
+    fn enc(v: u32) -> VarInput {
+        var_enc(v)
+    }
+    fn dec(i: VarInput) -> u32 {
+        var_dec(i)
+    }
+}
+
+#[derive(Debug)]
+pub struct CfgVarDefault;
+impl Config for CfgVarDefault {
+    type Input = VarInput;
+    type InputPredictor = PredictDefault;
+    type State = GState;
+    type Address = Addr;
+}
+impl SimCfg for CfgVarDefault {
+    const PREDICT_DEFAULT: bool = true;
+    fn enc(v: u32) -> VarInput {
+        var_enc(v)
+    }
+    fn dec(i: VarInput) -> u32 {
+        var_dec(i)
+    }
 }
 
 #[derive(Debug)]
@@ -28,6 +90,12 @@ impl Config for CfgRepeat {
 }
 impl SimCfg for CfgRepeat {
     const PREDICT_DEFAULT: bool = false;
+    fn enc(v: u32) -> u32 {
+        v
+    }
+    fn dec(i: u32) -> u32 {
+        i
+    }
 }
 
 #[derive(Debug)]
@@ -40,6 +108,12 @@ impl Config for CfgDefault {
 }
 impl SimCfg for CfgDefault {
     const PREDICT_DEFAULT: bool = true;
+    fn enc(v: u32) -> u32 {
+        v
+    }
+    fn dec(i: u32) -> u32 {
+        i
+    }
 }
 
 /// Input status as the harness records it.
